@@ -1,4 +1,4 @@
 From Coq Require Import Extraction ExtrOcamlBasic.
-From PP Require Import Shard.ShardDefs.
+From PP Require Import Shard.ShardDefs Shard.ShardConcrete.
 Extraction "model.ml" Z.of_N Z.to_N Z.of_nat Z.to_nat N.of_nat N.to_nat N.add N.mul Z.opp
-  shard shard_tool shard_bytes names digits_of pad decimal blocks index kBlockSize shard_seed.
+  shard shard_tool shard_tool_fast records_fast shard_bytes names digits_of pad decimal blocks index kBlockSize shard_cb_seed shard_tool_fields shard_parse_args.
